@@ -240,9 +240,13 @@ def run_case(case):
                     labels.add("whole_chunk_write")
                 else:
                     ril = op[3]
+                    # the same chunk read in pixel interlace and in the requested interlace must hold the same pixels
+                    checks.append((p.call("i", "GRreqimageil", V("ri"), PIXEL), "ret0", "GRreqimageil"))
+                    ln0 = p.call("i", "GRreadchunk", V("ri"), i32s(i0, i1), Out(c0 * c1 * C * isz))
+                    checks.append((ln0, "rchunk", (last_chunk.get((i0, i1)), c1, c0, PIXEL, [i0, i1], None)))
                     checks.append((p.call("i", "GRreqimageil", V("ri"), ril), "ret0", "GRreqimageil"))
                     ln = p.call("i", "GRreadchunk", V("ri"), i32s(i0, i1), Out(c0 * c1 * C * isz))
-                    checks.append((ln, "rchunk", (last_chunk.get((i0, i1)), c1, c0, ril, [i0, i1])))
+                    checks.append((ln, "rchunk", (last_chunk.get((i0, i1)), c1, c0, ril, [i0, i1], ln0)))
                     labels.add("whole_chunk_read")
             elif k == "lutw":
                 seed, lil = op[1], op[2]
@@ -350,9 +354,15 @@ def run_case(case):
                                    cell_state={0: "untouched", 1: "written", 2: "fill"}[int(es[y, x, c])],
                                    nbad=int(len(bad)))
                 elif ck == "rchunk":
-                    blk, ch, cw, ril, org = pay
+                    blk, ch, cw, ril, org, ln_pix = pay
                     if r.ret != 0:
                         raise Fail("GRreadchunk failed", chunk=org)
+                    if ln_pix is not None:
+                        a_ = from_il(r.bufs[0], dt, ch, cw, C, ril)
+                        b_ = from_il(rr.res[ln_pix].bufs[0], dt, ch, cw, C, PIXEL)
+                        if np.ascontiguousarray(a_).tobytes() != np.ascontiguousarray(b_).tobytes():
+                            raise Fail("GRreadchunk in the requested interlace does not hold the pixels of the same "
+                                       "chunk read in pixel interlace", chunk=org, read_interlace=ril)
                     if blk is not None:
                         got = from_il(r.bufs[0], dt, ch, cw, C, ril)
                         if got.tobytes() != np.ascontiguousarray(blk).tobytes():
